@@ -72,7 +72,7 @@ package wkb
 //@   opt callwrites=declared
 //@   requires [reader] typeof(r) != nil
 //@   requires [registry] registryOK()
-//@   ensures [geometry_or_error] result1 == nil ==> typeof(result0) != nil
+//@   ensures_local [geometry_or_error] result1 == nil ==> typeof(result0) != nil
 //@   ensures_assumed [reads_back_point] old(ghost(r, "pos")) >= 0 && old(ghost(r, "pos")) + 2 < ghost(r, "n") && old(wfPointEnc(objOf(r), ghost(r, "pos"))) ==> result1 == nil && typeof(result0) == geom.Point && tokSamePt(result0.(geom.Point), tokPt(ghostAt(r, "tok", old(ghost(r, "pos")) + 2))) && ghost(r, "pos") == old(ghost(r, "pos")) + 3
 //@   ensures_assumed [reads_back_linestring] old(ghost(r, "pos")) >= 0 && old(ghost(r, "pos")) + 3 < ghost(r, "n") && old(wfLineEnc(objOf(r), ghost(r, "pos"))) ==> result1 == nil && typeof(result0) == geom.LineString && runAt(objOf(r), old(ghost(r, "pos")) + 3, old(tokU(ghostAt(r, "tok", ghost(r, "pos")))), result0.(geom.LineString)) && ghost(r, "pos") == old(ghost(r, "pos")) + 4
 //@   ensures_assumed [reads_back_polygon] old(ghost(r, "pos")) >= 0 && old(wfPolyEnc(objOf(r), ghost(r, "pos"))) && old(ghost(r, "pos") + 2 + 2 * tokU(ghostAt(r, "tok", ghost(r, "pos") + 2)) < ghost(r, "n")) ==> result1 == nil && typeof(result0) == geom.Polygon && len(result0.(geom.Polygon)) == old(tokU(ghostAt(r, "tok", ghost(r, "pos") + 2))) && (forall k int :: 0 <= k && k < len(result0.(geom.Polygon)) ==> runAt(objOf(r), old(ghost(r, "pos")) + 4 + 2 * k, old(tokU(ghostAt(r, "tok", ghost(r, "pos")))), result0.(geom.Polygon)[k])) && ghost(r, "pos") == old(ghost(r, "pos")) + 3 + 2 * len(result0.(geom.Polygon))
